@@ -21,6 +21,14 @@ Pack(w, ir) == SelA(w, ir) + 8 * SelB(w, ir) + 64 * SelW(w, ir) + 512 * ConstB(w
                + 2^29 * B2N(MAC2(w)) + 2^30 * B2N(MAC3(w))
 DecodeRow(a) == [ir \in 1..256 |-> Pack(Word(a), ir - 1)]
 
+\* instruction-register update and halt detection of one clock edge, as a function of
+\* (current word, byte on the bus during the last edge); IR before the edge = 85
+IrStepRow(a) ==
+  [b \in 1..256 |->
+     LET m0 == [MachineInit EXCEPT !.maddr = a, !.ir = 85, !.lbr = b - 1]
+         m1 == EdgeF(m0)
+     IN m1.ir + 256 * (CASE m1.st = "Running" -> 0 [] m1.st = "Stopped" -> 1 [] m1.st = "ErrorStopped" -> 2)]
+
 NextRow(c, ir) ==
   LET w == c * 2^19 IN
   [r \in 1..512 |->
@@ -37,7 +45,8 @@ Next == \/ kind = "decode" /\ j < 31 /\ j' = j + 1 /\ UNCHANGED <<kind, i>>
 \* decode: address = 32 * i + j.   nextaddr: worker i handles the classes k with k % 16 = i.
 Emit ==
   IF kind = "decode"
-  THEN PrintT(<<"REPLAY", ToJson([kind |-> "decode", a |-> 32 * i + j, row |-> DecodeRow(32 * i + j)])>>)
+  THEN /\ PrintT(<<"REPLAY", ToJson([kind |-> "decode", a |-> 32 * i + j, row |-> DecodeRow(32 * i + j)])>>)
+       /\ PrintT(<<"REPLAY", ToJson([kind |-> "irstep", a |-> 32 * i + j, row |-> IrStepRow(32 * i + j)])>>)
   ELSE \A k \in 1..NC : (k % 16 = i) =>
          PrintT(<<"REPLAY", ToJson([kind |-> "nextaddr", class |-> ClassSeq[k], ir |-> j, row |-> NextRow(ClassSeq[k], j)])>>)
 =====================================================================
